@@ -11,6 +11,7 @@ import Driver.AsmCmd
 import Driver.HMeshCmd
 import Driver.InitPotCmd
 import Driver.PosDefCmd
+import Driver.ProblemsCmd
 /- stbem-driver: one protocol line in, one canonical line out. -/
 open Driver
 
@@ -28,6 +29,7 @@ def dispatch (st : St) (line : String) : St × String :=
   | "q1" :: _ | "q2" :: _ | "q3" :: _ | "slo" :: _ => (st, quadCmd args)
   | "g1" :: _ | "g2" :: _ | "g3" :: _ | "gc" :: _ | "gnp" :: _ => (st, quadGenCmd args)
   | "fm" :: _ => (st, formulaCmd args)
+  | "pb" :: _ => (st, problemsCmd args)
   | "sl" :: _ => let r := slCmd st.sl args; ({ st with sl := r.1 }, r.2)
   | "qt" :: _ => let r := qtCmd st.qt args; ({ st with qt := r.1 }, r.2)
   | "ee" :: _ => let r := eeCmd st.mesh args; ({ st with mesh := r.1 }, r.2)
